@@ -284,7 +284,11 @@ def loop_ends_fork_branch(d):
     return False
 
 
-def build_items(out, prop, n_quick, variants=(0,), subsets=False, with_multi_start=False, with_corpus=True):
+def load_extra_pool(name):
+    return [dict(json.loads(l), beyond_f=True) for l in (POOL.parent / f"{name}.jsonl").read_text().splitlines() if l.strip()]
+
+
+def build_items(out, prop, n_quick, variants=(0,), subsets=False, with_multi_start=False, with_corpus=True, extra_pools=()):
     pool = load_pool()
     recs = select(pool, out.seed, out.tier, n_quick)
     if subsets:     # always: the pool definitions in which a loop with a break branch ends an AND/OR fork branch
@@ -292,17 +296,19 @@ def build_items(out, prop, n_quick, variants=(0,), subsets=False, with_multi_sta
         recs = recs + [r for r in pool if r["id"] not in have and loop_ends_fork_branch(r["d"])]
     if with_corpus:
         recs = recs + load_corpus_pool()
+    for name, nq in extra_pools:        # frozen pools beyond the letter of F (DESIGN 9.4); complete job sets only
+        recs = recs + select(load_extra_pool(name), out.seed + 11, out.tier, nq)
     items = []
     for rec in recs:
         jobs = complete_jobs(rec)
         for v in variants:
             items.append(dict(rec=rec, jobs=jobs, variant=v, subset=False))
-        if subsets and len(jobs) >= 3:
+        if subsets and len(jobs) >= 3 and not rec.get("beyond_f"):
             rnd = random.Random(int(hashlib.sha256(rec["id"].encode()).hexdigest()[:8], 16) if rec.get("corpus") else int(rec["id"], 16) % (2**31))
             sub = [j for j in jobs if rnd.random() < 0.6] or jobs[:1]
             if len(sub) < len(jobs):
                 items.append(dict(rec=dict(rec, id=rec["id"] + "-sub"), jobs=sub, variant=0, subset=True))
-        if subsets and not rec.get("corpus"):
+        if subsets and not rec.get("corpus") and not rec.get("beyond_f"):
             brk = break_only_subset(rec, jobs)
             if brk:
                 items.append(dict(rec=dict(rec, id=rec["id"] + "-brk"), jobs=brk, variant=0, subset=True))
@@ -325,7 +331,7 @@ def standard_run(out, prop, n_quick, want, verdict, **kw):
     not_in_f = []
     for i, it in enumerate(items):
         cert = certs.get(i)
-        if cert is not None and not cert["inF"] and not it["rec"].get("multi_start") and not it["rec"].get("corpus"):
+        if cert is not None and not cert["inF"] and not it["rec"].get("multi_start") and not it["rec"].get("corpus") and not it["rec"].get("beyond_f"):
             not_in_f.append(it["rec"]["id"])
         kind = pre[i] if pre[i] else (verdict(it, cert) if cert is not None else None)
         if kind is None:
@@ -350,6 +356,10 @@ def standard_run(out, prop, n_quick, want, verdict, **kw):
         "exhaustive": False,
         "definitions": len(recs), "learner_runs": len(items), "pool_size": len(pool),
         "corpus_definitions": sum(1 for r in recs if r.get("corpus")),
+        "beyond_f_definitions": sum(1 for r in recs if r.get("beyond_f")),
+        "beyond_f_note": "frozen pool X (harness/pool/X.jsonl, 150 'dispatcher' shapes: XOR branches that begin with a nested XOR, that end the "
+                         "job, or that break out of a loop) lies outside the letter of fragment F; the pinned tree satisfies the statement on "
+                         "every member (checked when the pool was frozen), a failure there is reported like any other",
         "jobs_certified": sum(len(it["jobs"]) for it in items if it.get("tokens")),
         "failure_kinds": kinds, "failing_keys": failing,
         "undecided_by_caps": sum(1 for c in certs.values() if c["rej_u"] or c["ni_u"]),
